@@ -71,13 +71,13 @@ def main(ctx):
              shards(["nvx-simple", "nvx-sse2", "nvx-factory", "c-simple-aligned",
                      "c-sse2-aligned"]))
     # part B: role policy on the wire
-    for fw in ():
+    for fw in ("tx", "aio"):
         for nvx in ("0", "1"):
             ctx.pmap({"fw": fw, "nvx": nvx}, "props.c15:job_wire",
                      [{"role": r, "seed": seed} for r in ("client", "server")])
     ctx.coverage["distinct_nontrivial"] = int(ctx.counters["nontrivial"])
     for n in ("impl:py-simple", "impl:py-shifted", "impl:nvx-simple", "impl:nvx-sse2",
-              "impl:c-sse2-aligned"):
+              "impl:c-sse2-aligned", "wire_frames_client", "wire_frames_server"):
         ctx.require(n)
 
 
